@@ -19,6 +19,14 @@ def run(ctx):
             elif x < 0.4: inputs.append('ok1\nok2 x\n' + m)           # in a later line
             elif x < 0.5: inputs.append('a "$(b `' + m + '`)"')       # nested twice
             elif x < 0.6: inputs.append(m + '\nafter')
+    # unexpected end of input inside a here-document, with and without a final newline, in several positions
+    for s in base[:150 if quick else 2000]:
+        t = s.rstrip('\n')
+        if '<<' in t or '#' in t.split('\n')[-1]: continue
+        x = rng.random()
+        inputs.append(t + ' <<NEVER\nbody\n'); inputs.append(t + ' <<-NEVER\n\tbody')
+        if x < 0.3: inputs.append('{ ' + t + ' <<NEVER\n}\nbody\n')
+        elif x < 0.5: inputs.append(t + ' <<A <<B\nx\nA\ny\n')
     inputs = common.dedup(inputs)
     if ctx.get('replay'):
         inputs = [json.load(open(ctx['replay']))['input']]
